@@ -271,6 +271,24 @@ def chunk_derive(chunk, acc):
         b2 = call(c2.BeaconKeys.from_aes_rand, r, iv)
         if isinstance(b2, str) or b2.iv != iv or b2.aes_key != exp[0]:
             acc.fail("C06/derive/custom-iv", {"kind": "derive", "aes_rand": r.hex()}, iv.hex(), repr(b2)[:100])
+    # a traffic decoder that is given the 16 random bytes works with the keys derived from them - whatever other key
+    # material accompanies them (an explicit HMAC key, the RSA private key, verification switched off)
+    from dissect.cobaltstrike import beacon
+    from vmc.ref import config as RC
+
+    bconfig = beacon.BeaconConfig(RC.http_block())
+    other = bytes(lcg(16, acc.seed + 77))
+    for r in seeds[:6]:
+        d = hashlib.sha256(r).digest()
+        exp = (d[:16], d[16:])
+        for label, kw in (("alone", {}), ("with-hmac-key", {"hmac_key": other}), ("with-derived-hmac-key", {"hmac_key": d[16:]}), ("with-rsa-key", {"rsa_private_key": K.key(1024, 0)}), ("with-hmac-key-unverified", {"hmac_key": other, "verify_hmac": False})):
+            acc.states += 1
+            acc.transitions += 1
+            dec = call(lambda: c2.C2Http(bconfig, aes_rand=r, **kw))
+            got = dec if isinstance(dec, str) else (dec.aes_key, dec.hmac_key, dec.beacon_keys.aes_key, dec.beacon_keys.hmac_key)
+            acc.case(("decoder", r, label), outcome=d[:4])
+            if got != exp + exp:
+                acc.fail("C06/derive/decoder-keys/" + label, {"kind": "derive", "aes_rand": r.hex()}, [e.hex() for e in exp], got if isinstance(got, str) else [None if g is None else bytes(g).hex() for g in got])
     acc.sample({"aes_rand": RANDS[2].hex(), "aes_key": hashlib.sha256(RANDS[2]).digest()[:16].hex()})
 
 
